@@ -332,6 +332,21 @@ def _scene_case(spec):
         if what:
             out["mismatches"].append(dict(stage=stage, what=what, case=tag))
 
+    # the materials in force are the ones that were given (exact 0 and 1 included, integer or float)
+    for w, p in enumerate(radi.patch_list):
+        given = np.asarray(cfg["alpha"][w], dtype=float)
+        if np.asarray(p.absorption, dtype=float).shape != given.shape or np.any(np.asarray(p.absorption, dtype=float) != given):
+            fail("given_absorption", "wall %d was given the absorption %r but the object simulates %r"
+                 % (w, given.tolist(), np.asarray(p.absorption).tolist()), wall=w)
+            break
+        gs = np.asarray(cfg["scat"][w], dtype=float)
+        if np.any(np.asarray(p.scattering, dtype=float) != gs):
+            fail("given_absorption", "wall %d was given the scattering %r but the object simulates %r"
+                 % (w, gs.tolist(), np.asarray(p.scattering).tolist()), wall=w)
+            break
+    if np.any(np.asarray(radi.patch_list[0].sound_attenuation_factor, dtype=float) != np.asarray(cfg["att"], dtype=float)):
+        fail("given_absorption", "the air attenuation %r was given but the object simulates %r"
+             % (cfg["att"], np.asarray(radi.patch_list[0].sound_attenuation_factor).tolist()))
     # ---- implementation
     radi.run(source)
     E = impl_E(radi)
